@@ -335,7 +335,7 @@ fn sibling_chains(run: &Run) {
     let coin = split.output_coinid(0);
     let mut chains = vec![];
     for txs in [vec![split.clone()], vec![split.clone(), extra.clone()]] {
-        let (_w, rootn) = root(NetID::Custom02, 0, false);
+        let (_w, rootn) = root(NetID::Custom03, 0, false);
         let mut node = Some(rootn);
         for a in [Action::Open, Action::Batch { label: format!("block 1 of {} transactions", txs.len()), txs: txs.clone(), expect_ok: true }, Action::Seal(None)] {
             node = match node.as_ref().map(|n| eng.step(n, &a)) {
@@ -425,6 +425,9 @@ fn concurrent_inflator_lookups(run: &Run, thorough: bool) {
 
 pub fn run(run: &Run) {
     let thorough = run.thorough();
+    // first of all, on a network nothing else in this process touches: whatever a process remembers about one chain must not
+    // leak into the verdicts on another
+    sibling_chains(run);
     let ages: Vec<u64> = if thorough { vec![1, 2, 3, 50, 99, 100, 101] } else { vec![1, 2, 3, 50] };
     let mut diffs: Vec<(u32, bool)> = vec![(1, false), (2, false), (4, false), (8, false), (16, false), (1, true), (3, true), (8, true), (14, true)];
     if thorough {
@@ -443,7 +446,6 @@ pub fn run(run: &Run) {
         run_world(run, NetID::Testnet, &[1, 2, 100], &[(2, false), (16, false), (3, true)], thorough);
     }
     formula_grid(run);
-    sibling_chains(run);
     concurrent_inflator_lookups(run, thorough);
     run.set("ages", json!({"custom02": ages, "mainnet": m_ages}));
     run.set("difficulties", json!(diffs.iter().map(|(d, t)| format!("{}{}", d, if *t { "/tip910" } else { "/legacy" })).collect::<Vec<_>>()));
